@@ -239,9 +239,11 @@ func (c pcase) runCode() pullOut {
 			out.err = "panic:" + msg
 		}
 	}()
+	w := bounded(20 * time.Second)
 	select {
 	case <-done:
-	case <-time.After(20 * time.Second):
+	case <-w.C:
+		w.ranOut()
 		return pullOut{err: "timeout"}
 	}
 	return out
@@ -292,9 +294,11 @@ func (c pcase) runValue(out *pullOut) {
 		out.err = "set:" + err.Error()
 	}
 	cancel()
+	w := bounded(10 * time.Second)
 	select {
 	case <-collected:
-	case <-time.After(10 * time.Second):
+	case <-w.C:
+		w.ranOut()
 		out.err = "pull channel not closed after cancel"
 		return
 	}
@@ -383,9 +387,11 @@ func (c pcase) runCollection(out *pullOut) {
 		out.err = "add sentinel:" + err.Error()
 	}
 	cancel()
+	w := bounded(10 * time.Second)
 	select {
 	case <-collected:
-	case <-time.After(10 * time.Second):
+	case <-w.C:
+		w.ranOut()
 		out.err = "pull channel not closed after cancel"
 		return
 	}
@@ -741,10 +747,14 @@ func runPull(f lib.Flags, res *lib.Result, drv *lib.Driver, ms *monitors) {
 		if i%3 == 2 {
 			c = g.pcaseInclude()
 		}
+		mark := patience.mark()
 		out := c.runCode()
 		code := c.monitor(ms, out)
 		if out.err != "" {
 			tie.Record(fmt.Sprint(i), true, c.json(), "(not asked)", code)
+			if patience.giveUp(mark) {
+				return // a broken tree must not stall the run (patience.go)
+			}
 			continue
 		}
 		line := c.line(out)
